@@ -927,6 +927,10 @@ func FromV3SchemaRef(schema *openapi3.SchemaRef, components *openapi3.Components
 		v2Schema.Discriminator = v.PropertyName
 	}
 
+	if v := schema.Value.AdditionalProperties.Schema; v != nil && v.Ref != "" {
+		v2Schema.AdditionalProperties = openapi3.AdditionalProperties{Schema: &openapi3.SchemaRef{Ref: FromV3Ref(v.Ref)}}
+	}
+
 	if v := schema.Value.Items; v != nil {
 		v2Schema.Items, _ = FromV3SchemaRef(v, components)
 	}
